@@ -603,3 +603,146 @@ Proof.
     + destruct (Nat.eqb_spec r i); [congruence|]. rewrite Hzz. field; auto.
     + rewrite Hzz, Hk'. field; auto.
 Qed.
+(* ------------------------------------------------------------------ min-ratio test: more structure
+   (tolerance 0): the rows returned are distinct, non-empty when a candidate with a positive entry exists,
+   and have pairwise equal ratios *)
+Lemma NoDup_app_r {A} (l1 l2 : list A) : NoDup (l1 ++ l2) -> NoDup l2.
+Proof. induction l1; cbn; auto. intros H. inversion H; auto. Qed.
+
+Lemma mrt_loop_nodup (M : matQ) pv tc tolp tolr cands rmin acc :
+  NoDup (acc ++ cands) -> NoDup (mrt_loop M pv tc tolp tolr cands rmin acc).
+Proof.
+  revert rmin acc. induction cands as [|i rest IH]; intros rmin acc Hnd; cbn [mrt_loop].
+  - rewrite app_nil_r in Hnd. now apply NoDup_rev.
+  - assert (H1 : NoDup (acc ++ rest)) by (eapply NoDup_remove_1; eauto).
+    assert (H2 : NoDup ([i] ++ rest)) by (apply (NoDup_app_r acc); auto).
+    assert (H3 : NoDup ((i :: acc) ++ rest)).
+    { cbn. constructor; auto. eapply NoDup_remove_2; eauto. }
+    destruct (nleb _ _); [auto|]. destruct rmin as [rm|]; [|auto].
+    destruct (nltb _ _); [auto|]. destruct (nltb _ _); auto.
+Qed.
+Lemma min_ratio_test_nodup (M : matQ) pv tc tolp tolr cands :
+  NoDup cands -> NoDup (min_ratio_test M pv tc tolp tolr cands).
+Proof. intros. apply mrt_loop_nodup. auto. Qed.
+
+Lemma mrt_loop_nonempty (M : matQ) pv tc tolp tolr cands rmin acc :
+  match rmin with
+  | Some _ => acc <> []
+  | None => exists k, In k cands /\ tolp < get M k pv
+  end ->
+  mrt_loop M pv tc tolp tolr cands rmin acc <> [].
+Proof.
+  revert rmin acc. induction cands as [|i rest IH]; intros rmin acc H; cbn [mrt_loop].
+  - destruct rmin; [|destruct H as (k & [] & _)]. intro E. apply H. destruct acc; auto.
+    cbn in E. apply app_eq_nil in E. destruct E; discriminate.
+  - destruct (nleb (get M i pv) tolp) eqn:E1.
+    + apply nleb_le in E1. apply IH. destruct rmin; auto.
+      destruct H as (k & [<-|Hk] & Hp); [lra|eauto].
+    + destruct rmin as [rm|].
+      * destruct (nltb _ _); [apply IH; auto|]. destruct (nltb _ _); apply IH; discriminate.
+      * apply IH. discriminate.
+Qed.
+Lemma min_ratio_test_nonempty (M : matQ) pv tc tolp tolr cands :
+  (exists k, In k cands /\ tolp < get M k pv) -> min_ratio_test M pv tc tolp tolr cands <> [].
+Proof. intros. apply mrt_loop_nonempty. auto. Qed.
+
+Lemma min_ratio_test_eq_ratio (M : matQ) pv tc cands r r' :
+  In r (min_ratio_test M pv tc 0 0 cands) -> In r' (min_ratio_test M pv tc 0 0 cands) ->
+  ratio M pv tc r == ratio M pv tc r'.
+Proof.
+  intros H H'. pose proof (min_ratio_test_in _ _ _ _ _ _ _ H) as [Hc Hp].
+  pose proof (min_ratio_test_in _ _ _ _ _ _ _ H') as [Hc' Hp'].
+  pose proof (min_ratio_test_min _ _ _ _ _ H r' Hc' Hp'). pose proof (min_ratio_test_min _ _ _ _ _ H' r Hc Hp). lra.
+Qed.
+
+(* when the tie-breaking loop gives up, at least two distinct rows are left, and all rows left have equal
+   ratios on every tested column *)
+Lemma lex_loop_false (M : matQ) pv cols am am' :
+  lex_loop M pv 0 0 cols am = (false, am') ->
+  NoDup am -> (2 <= length am)%nat -> (forall r, In r am -> 0 < get M r pv) ->
+  NoDup am' /\ (2 <= length am')%nat /\ (forall r, In r am' -> In r am) /\
+  forall j, In j cols -> j <> pv -> forall r r', In r am' -> In r' am' -> ratio M pv j r == ratio M pv j r'.
+Proof.
+  revert am. induction cols as [|j rest IH]; intros am H Hnd Hlen Hpos; cbn [lex_loop] in H.
+  - inversion H; subst. split; [auto|split; [auto|split; [auto|intros j []]]].
+  - destruct (Nat.eqb_spec j pv) as [->|Hne].
+    + destruct (IH _ H Hnd Hlen Hpos) as (H1 & H2 & H3 & H4). split; [auto|split; [auto|split; [auto|]]].
+      intros j' [<-|Hj'] Hne'; [contradiction|auto].
+    + set (am1 := min_ratio_test M pv j 0 0 am) in *.
+      assert (Hsub : forall r, In r am1 -> In r am) by (intros r Hr; apply min_ratio_test_in in Hr; tauto).
+      assert (Hnd1 : NoDup am1) by (apply min_ratio_test_nodup; auto).
+      assert (Hne1 : am1 <> []).
+      { apply min_ratio_test_nonempty. destruct am as [|a0 am]; [cbn in Hlen; lia|]. exists a0. split; [now left|apply Hpos; now left]. }
+      assert (Hlen1 : (2 <= length am1)%nat).
+      { destruct am1 as [|a1 [|b1 l1]] eqn:E; [congruence|discriminate|cbn; lia]. }
+      assert (Hcont : lex_loop M pv 0 0 rest am1 = (false, am')).
+      { destruct am1 as [|a1 [|b1 l1]]; [auto|cbn in Hlen1; lia|auto]. }
+      destruct (IH _ Hcont Hnd1 Hlen1 ltac:(intros r Hr; apply Hpos; auto)) as (H1 & H2 & H3 & H4).
+      split; [auto|split; [auto|split; [auto|]]].
+      intros j' [<-|Hj'] Hne' r r' Hr Hr'; [|eauto].
+      apply (min_ratio_test_eq_ratio M pv j am); fold am1; auto.
+Qed.
+
+(* _lex_min_ratio_test finds a row whenever some row has a positive entry, provided no two distinct rows
+   with positive entries have equal ratios on all tie-breaking columns (true when those columns hold a
+   non-singular block) *)
+Lemma lex_min_ratio_test_n_complete nr (M : matQ) pv ss :
+  (forall r r', (r < nr)%nat -> (r' < nr)%nat -> r <> r' -> 0 < get M r pv -> 0 < get M r' pv ->
+     ~ (forall j, (ss <= j < ss + nr)%nat -> j <> pv -> ratio M pv j r == ratio M pv j r')) ->
+  fst (lex_min_ratio_test_n nr M pv ss 0 0) = false -> forall k, (k < nr)%nat -> get M k pv <= 0.
+Proof.
+  intros Hns Hf k Hk. apply Qnot_lt_le. intro Hpos.
+  unfold lex_min_ratio_test_n in Hf.
+  set (am := min_ratio_test M pv (ncols M - 1) 0 0 (seq 0 nr)) in *.
+  assert (Hne : am <> []) by (apply min_ratio_test_nonempty; exists k; split; [apply in_seq; lia|auto]).
+  assert (Hnd : NoDup am) by (apply min_ratio_test_nodup, seq_NoDup).
+  assert (Hin : forall r, In r am -> (r < nr)%nat /\ 0 < get M r pv).
+  { intros r Hr. apply min_ratio_test_in in Hr. destruct Hr as [H1 H2]. apply in_seq in H1. split; [lia|auto]. }
+  destruct am as [|a0 [|b0 l0]] eqn:E; [congruence|discriminate|].
+  destruct (lex_loop M pv 0 0 (seq ss nr) (a0 :: b0 :: l0)) as [found am'] eqn:El. cbn [fst] in Hf. subst found.
+  destruct (lex_loop_false _ _ _ _ _ El Hnd ltac:(cbn; lia) ltac:(intros r Hr; apply Hin; auto)) as (H1 & H2 & H3 & H4).
+  destruct am' as [|r [|r' l']]; [cbn in H2; lia|cbn in H2; lia|].
+  assert (Hrr : r <> r') by (inversion H1; subst; intro; subst; apply H5; now left).
+  destruct (Hin r ltac:(apply H3; now left)) as [Hr1 Hr2].
+  destruct (Hin r' ltac:(apply H3; right; now left)) as [Hr1' Hr2'].
+  apply (Hns r r' Hr1 Hr1' Hrr Hr2 Hr2'). intros j Hj Hne'. apply H4; auto.
+  - apply in_seq. lia.
+  - now left.
+  - right; now left.
+Qed.
+
+(* basic direction read from a column `col` of the tableau (bsol is the case col = nc - 1) *)
+Definition bsolc (L : nat) (T : matQ) (basis : list nat) (col j : nat) : Q :=
+  sumQ L (fun i => if Nat.eqb (nth i basis 0%nat) j then get T i col else 0).
+
+Lemma bsolc_dot N L T basis col k :
+  (forall i, (i < L)%nat -> (nth i basis 0 < N)%nat) ->
+  sumQ N (fun j => get T k j * bsolc L T basis col j)
+  == sumQ L (fun i => get T k (nth i basis 0%nat) * get T i col).
+Proof.
+  intros Hb. unfold bsolc.
+  rewrite (sumQ_ext _ _ (fun j => sumQ L (fun i => if Nat.eqb (nth i basis 0%nat) j then get T k j * get T i col else 0))).
+  2:{ intros j Hj. rewrite <- sumQ_scale. apply sumQ_ext. intros i Hi. destruct (Nat.eqb _ _); ring. }
+  rewrite sumQ_swap. apply sumQ_ext. intros i Hi.
+  rewrite (sumQ_delta' N (nth i basis 0%nat) (fun j => get T k j * get T i col)).
+  destruct (Nat.ltb_spec (nth i basis 0%nat) N); [reflexivity|]. specialize (Hb i Hi). lia.
+Qed.
+Lemma bsolc_row nr N L T basis col k :
+  (L <= nr)%nat -> (forall i, (i < L)%nat -> (nth i basis 0 < N)%nat) -> unit_cols nr L T basis -> (k < nr)%nat ->
+  sumQ N (fun j => get T k j * bsolc L T basis col j) == if Nat.ltb k L then get T k col else 0.
+Proof.
+  intros HL Hb Hu Hk. rewrite bsolc_dot by auto.
+  rewrite (sumQ_ext _ _ (fun i => if Nat.eqb i k then get T i col else 0)).
+  - rewrite sumQ_delta. reflexivity.
+  - intros i Hi. rewrite (Hu i k Hi Hk). destruct (Nat.eqb_spec k i), (Nat.eqb_spec i k); try (exfalso; lia); ring.
+Qed.
+Lemma bsolc_zero L T basis col j :
+  (forall i, (i < L)%nat -> nth i basis 0%nat = j -> get T i col == 0) -> bsolc L T basis col j == 0.
+Proof. intros H. apply sumQ_zero. intros i Hi. destruct (Nat.eqb_spec (nth i basis 0%nat) j); [auto|reflexivity]. Qed.
+Lemma bsolc_nonpos L T basis col j :
+  (forall i, (i < L)%nat -> get T i col <= 0) -> bsolc L T basis col j <= 0.
+Proof.
+  intros H. unfold bsolc. apply Qle_trans with (sumQ L (fun _ => 0)).
+  - apply sumQ_le. intros i Hi. destruct (Nat.eqb _ _); [auto|lra].
+  - rewrite sumQ_zero; [lra|reflexivity].
+Qed.
